@@ -2,6 +2,8 @@ mod cat;
 mod engine;
 mod h_basic;
 mod h_subject;
+mod h_sched;
+mod h_conv;
 mod harness;
 mod model;
 mod val;
@@ -47,6 +49,10 @@ fn all_harnesses() -> Vec<HarnessDef> {
   let mut v = vec![];
   v.extend(h_basic::harnesses());
   v.extend(h_subject::harnesses());
+  v.extend(h_sched::harnesses());
+  v.extend(h_sched::harnesses2());
+  v.extend(h_sched::harnesses3());
+  v.extend(h_conv::harnesses());
   v
 }
 
